@@ -23,6 +23,16 @@ def run(ctx):
     scns = ctx.tlc_gen("MC_UDPSessions", "Gen_UDPSessions.cfg", num=200 if T else 40, depth=150, timeout=600)
     ctx.write_scenarios("udpsess", scns)
     ctx.go_test("core", "./server/", "TestVerif_C07$", ["harness/core/server/c07_test.go"], timeout=240)
-    ctx.validate("Prop_C08", sig=sig, distinct=distinct)
+    import os
+    ctx.validate("Prop_C08", sig=sig, distinct=distinct, traces=[ctx.out + "/trace-C07.ndjson"])
+    # end to end: the real ACL engine (extras) as the real server's Outbound, a real client, one session, hundreds of destinations
+    if not ctx.replay:
+        from hv import core
+        src = open(os.path.join(core.VERIF, "harness/core/internal/integration_tests/e2e_common_test.go")).read()
+        src = src.replace("package integration_tests", "package outbounds", 1).replace("github.com/apernet/hysteria/core/v2/internal/verifkit", "github.com/apernet/hysteria/extras/v2/internal/verifkit")
+        common = os.path.join(ctx.out, "e2e_common_outbounds_test.go")
+        open(common, "w").write(src)
+        ctx.go_test("extras", "./outbounds/", "TestVerif_C08e$", [common, "harness/extras/outbounds/c08_e2e_test.go"], timeout=600)
+    ctx.validate("Prop_C08e", sig=sig, traces=[ctx.out + "/trace-C08e.ndjson"])
     ctx.assumptions += ["the first destination of a session is vetted by the dial (Outbound.UDP), later ones by CheckUDP, as in the code; both fakes apply the same predicate"]
     return ctx.finish(rule="one case = one datagram written to an outbound socket; distinct = (scenario, destination) pairs")
